@@ -34,7 +34,21 @@ main(int argc, char** argv)
       } else {
         const ZixStringView a = zix_substring((const char*)mem + ao, al);
         const ZixStringView b = zix_substring((const char*)mem + bo, bl);
-        printf("eq %d\n", zix_string_view_equals(a, b) ? 1 : 0);
+        const bool r1 = zix_string_view_equals(a, b);
+        printf("eq %d", r1 ? 1 : 0);
+        // The answer is about the bytes the views designate NOW: change one byte of `a` and ask again with the very same
+        // view values, then restore it and ask a third time.  (A declaration that lets the compiler reuse the first answer
+        // - e.g. a "const" function attribute in the header - shows here.)
+        if (al > 0) {
+          mem[ao] ^= 0x01;
+          const bool want2 = al == bl && !memcmp(mem + ao, mem + bo, al);
+          const bool r2    = zix_string_view_equals(a, b);
+          mem[ao] ^= 0x01;
+          const bool r3 = zix_string_view_equals(a, b);
+          if (r2 != want2) printf(" SPEC-FAIL:stale-answer-after-the-viewed-bytes-changed");
+          if (r3 != r1) printf(" SPEC-FAIL:answer-changed-after-the-bytes-were-restored");
+        }
+        fputc('\n', stdout);
       }
       free(mem);
     } else if (!strcmp(tok[0], "vcopy") && n == 4) {
